@@ -118,16 +118,23 @@ func c09End(p *core.Prog, r *core.Report) {
 	// Entomb / Delete: success only on the mutating path, not for tombstones
 	itemsF := p.Field("", "relayItems", "items")
 	if f := mustFunc(p, r, "", "relayItems", "Entomb"); f != nil {
-		ok := false
+		ok := true
+		nTrue := 0
 		core.EachInstr(f, func(i ssa.Instruction) {
 			ret, isRet := i.(*ssa.Return)
 			if !isRet {
 				return
 			}
 			rv := core.ReturnValues(ret)
-			if b, isB := core.ConstBool(rv[1]); !isB || !b {
+			if b, isB := core.ConstBool(rv[1]); isB && !b {
 				return
 			}
+			if c, isC := rv[1].(*ssa.Extract); isC {
+				if _, fromDelete := core.IsCall(c.Tuple.(ssa.Instruction), "relayItems.Delete"); fromDelete {
+					return // too many tombstones: falls back to Delete, judged by Delete's own rule
+				}
+			}
+			nTrue++
 			// the path stored the item back (map update) and was guarded by !item.tomb
 			fs := factsAt(ret.Block())
 			notTomb := fs.hasBool(func(v ssa.Value) bool {
@@ -143,8 +150,13 @@ func c09End(p *core.Prog, r *core.Report) {
 					upd = true
 				}
 			}
-			ok = notTomb && upd
+			if !(notTomb && upd) {
+				ok = false
+			}
 		})
+		if nTrue == 0 {
+			ok = false
+		}
 		r.Check(ok, "C09-R1", fname(f), "Entomb succeeds only when it turned a live item into a tombstone", p.Pos(f.Pos()), "true only after storing the tomb under !item.tomb", "Entomb can succeed for an item that is already a tombstone (two paths both 'win')")
 	}
 	if f := mustFunc(p, r, "", "relayItems", "Delete"); f != nil {
@@ -440,19 +452,69 @@ func c09Pending(p *core.Prog, r *core.Report) {
 		r.Check(okGuard && okPath, "C09-R3", fname(f), "decrementPending exactly once after the won transition", p.Pos(f.Pos()), "one call, guarded by the transition's ok, on every winning path", fmt.Sprintf("pending is not decremented exactly once on the winning path (calls=%d guarded=%v allPaths=%v)", len(decs), okGuard, okPath))
 	}
 	if f := mustFunc(p, r, "", "Relayer", "handleCallReq"); f != nil {
-		decs := core.CallsIn(f, "Relayer.decrementPending")
-		ok := len(decs) == 1
-		if ok {
-			// after canHandleNewCall succeeded, before addRelayItem
-			can := core.CallsIn(f, "Relayer.canHandleNewCall")
-			ok = len(can) >= 1 && before(can[0], decs[0])
-			for _, a := range core.CallsIn(f, "Relayer.addRelayItem") {
-				if before(a, decs[0]) {
-					ok = false
-				}
+		// path counting from the relay's own successful admission (which
+		// incremented pending): every return before the relay items are
+		// registered undoes it exactly once, every return after registration
+		// leaves it to the items' transitions
+		var own ssa.CallInstruction
+		for _, c := range core.CallsIn(f, "Relayer.canHandleNewCall") {
+			if core.CallArgs(c)[0] == ssa.Value(f.Params[0]) && own == nil {
+				own = c
 			}
 		}
-		r.Check(ok, "C09-R3", fname(f), "admission roll-back decrements pending once", p.Pos(f.Pos()), "one decrement between admission and registration failure", "admission roll-back does not undo the pending increment exactly once")
+		if own == nil {
+			r.Errorf("relay handleCallReq: own canHandleNewCall not found")
+		} else {
+			var canV ssa.Value
+			for _, ref := range *own.Value().Referrers() {
+				if ex, isEx := ref.(*ssa.Extract); isEx && ex.Index == 0 {
+					canV = ex
+				}
+			}
+			prune := func(a, b *ssa.BasicBlock) bool {
+				ifi, ok := a.Instrs[len(a.Instrs)-1].(*ssa.If)
+				if !ok || a.Succs[0] == a.Succs[1] {
+					return false
+				}
+				_, bf := core.ExpandCond(ifi.Cond, a.Succs[0] == b)
+				for _, x := range bf {
+					if x.V == canV && !x.Pol {
+						return true // the not-admitted arm: nothing was incremented
+					}
+				}
+				return false
+			}
+			weight := func(i ssa.Instruction) (int, int) {
+				if _, ok := core.IsCall(i, "Relayer.decrementPending"); ok {
+					return 1, 1
+				}
+				return 0, 0
+			}
+			counts := pathCountsW(f, own.(ssa.Instruction), weight, prune)
+			adds := core.CallsIn(f, "Relayer.addRelayItem")
+			var rets []*ssa.Return
+			for ret := range counts {
+				rets = append(rets, ret)
+			}
+			sort.Slice(rets, func(i, j int) bool { return rets[i].Pos() < rets[j].Pos() })
+			okAll, how := len(rets) >= 3, fmt.Sprintf("%d returns after admission", len(rets))
+			for _, ret := range rets {
+				registered := false
+				for _, a := range adds {
+					if before(a, ret) {
+						registered = true
+					}
+				}
+				c := counts[ret]
+				if registered && c[1] != 0 {
+					okAll, how = false, fmt.Sprintf("return at %s decrements pending although the relay items were registered (the items' completion decrements again)", p.Pos(ret.Pos()))
+				}
+				if !registered && (c[0] != 1 || c[1] != 1) {
+					okAll, how = false, fmt.Sprintf("return at %s: pending is decremented %d..%d times on the paths to it after a successful admission that did not register the call", p.Pos(ret.Pos()), c[0], c[1])
+				}
+			}
+			r.Check(okAll, "C09-R3", fname(f), "admission roll-back decrements pending once", p.Pos(f.Pos()), "every unregistered return after admission passes exactly one decrementPending; registered returns none", how)
+		}
 	}
 	if f := mustFunc(p, r, "", "Relayer", "decrementPending"); f != nil {
 		ok := len(core.CallsIn(f, "Connection.checkExchanges")) == 1 && onEveryPath(f, "Connection.checkExchanges") && onEveryPath(f, "go.uber.org/atomic.Uint32.Dec")
@@ -518,6 +580,21 @@ func c09Forget(p *core.Prog, r *core.Report) {
 			}
 		}
 		r.Check(ok, "C09-R4", fname(f), "an id present in the table (live or tombstone) is never admitted", p.Pos(f.Pos()), "every path on which the lookup of Header.ID succeeds returns not-admitted", how)
+	}
+	// the timer of a looked-up item is stopped while the table lock is still
+	// held: Delete (write lock) releases the timer to the pool, so a Stop after
+	// the lock is dropped can hit a timer already re-armed for another call
+	if f := mustFunc(p, r, "", "relayItems", "Get"); f != nil {
+		mu := p.Field("", "relayItems", "RWMutex")
+		locks := p.ComputeLocks()
+		stops := core.CallsIn(f, "relayTimer.Stop")
+		ok := len(stops) > 0 && mu != nil
+		for _, c := range stops {
+			if locks.At(c.(ssa.Instruction))[mu] == core.NotHeld {
+				ok = false
+			}
+		}
+		r.Check(ok, "C09-R4", fname(f), "timeout.Stop() of a looked-up item runs under the table lock", p.Pos(f.Pos()), "lock held at every Stop call", "the item's timer is stopped after the table lock was dropped: it may already have been released and re-armed for another call")
 	}
 	for _, cs := range p.CallsTo("relayTimer.Release") {
 		r.Check(cs.Fn.Name() == "Delete", "C09-R4", fname(cs.Fn), "timer released only by relayItems.Delete", p.Pos(cs.Call.Pos()), "single release point, after the item left the table", "a relay timer is released while its item may still be used")
